@@ -5,10 +5,14 @@ list-level `insert_before/insert_after` (regex), object-level
 `insert_before/insert_after`, `delete`, `append_to_family`, `replace_text`, `re_sub`,
 `commit`, with `auto_commit` on or off and the `search_safe` checkpoint.
 
-A state holds the current line texts, the tree of the last commit and two flags:
-`stale` (`current_checkpoint ≠ commit_checkpoint`; only `ConfigList.insert` moves the
-current checkpoint) and `dirty` (some uncommitted change; object handles are line
-numbers of the last commit and are only used when the state is not dirty).
+A state holds the current list (`items`: each element's text and, if it is an object of
+the last commit, that object's committed line number — the model's notion of object
+identity), the tree of the last commit and two flags: `stale` (`current_checkpoint ≠
+commit_checkpoint`; only `ConfigList.insert` moves the current checkpoint) and `dirty`
+(some uncommitted change).  An object handle is a committed line number.  Operations
+that find their object by identity (object-level inserts, `replace_text`, `re_sub`) work
+on dirty states as well; `delete` and `append_to_family` index by the object's stored
+line number and are only modelled on non-dirty states.
 Regular expressions are oracle data: a list-level insert carries the row of matching
 lines, `re_sub` carries the substituted text.
 -/
@@ -19,16 +23,35 @@ inductive Err
   | indexError | valueError | invalidParameters | notImplemented | doesNotExist | dirtyHandle
 deriving Repr, DecidableEq
 
+structure Item where
+  text : Str
+  /-- committed line number of this object; `none` for an object created since the last commit -/
+  id : Option Nat
+deriving Repr, DecidableEq
+
 structure S where
   cfg : Cfg
   auto : Bool
   /-- `CiscoConfParse.auto_indent_width` -/
   width : Nat
-  texts : List Str
+  items : List Item
   tree : T
   stale : Bool
   dirty : Bool
 deriving Repr
+
+def S.texts (s : S) : List Str := s.items.map Item.text
+
+def fresh (txt : Str) : Item := { text := txt, id := none }
+
+/-- the objects of a freshly committed tree, in order -/
+def committedItems (t : T) : List Item := t.texts.zipIdx.map (fun p => { text := p.1, id := some p.2 })
+
+/-- current position of the committed object `h`, if it is still in the list -/
+def posOf (items : List Item) (h : Nat) : Option Nat := items.findIdx? (fun it => it.id == some h)
+
+def setText (items : List Item) (p : Nat) (txt : Str) : List Item :=
+  items.modify p (fun it => { it with text := txt })
 
 inductive Op
   | insert (k : Int) (txt : Str)
@@ -88,13 +111,13 @@ def pyReplace (before after s : Str) : Str :=
 /-- `ConfigList.commit()`: one bootstrap of the current texts -/
 def commit (s : S) : S :=
   let t := bootstrap s.cfg s.texts
-  { s with tree := t, texts := t.texts, stale := false, dirty := false }
+  { s with tree := t, items := committedItems t, stale := false, dirty := false }
 
 def autoCommit (s : S) : S := if s.auto then commit s else s
 
 def init (cfg : Cfg) (auto : Bool) (width : Nat) (ls : List Str) : S :=
   let t := parse cfg ls
-  { cfg := cfg, auto := auto, width := width, texts := t.texts, tree := t, stale := false, dirty := false }
+  { cfg := cfg, auto := auto, width := width, items := committedItems t, tree := t, stale := false, dirty := false }
 
 /-! ### append_to_family -/
 
@@ -187,51 +210,58 @@ def eraseAll (l : List α) (idxs : List Nat) : List α :=
 def step (s : S) (op : Op) : S × Except Err Unit :=
   match op with
   | .insert k txt =>
-    (autoCommit { s with texts := pyInsert s.texts k txt, stale := true, dirty := true }, .ok ())
+    (autoCommit { s with items := pyInsert s.items k (fresh txt), stale := true, dirty := true }, .ok ())
   | .append txt =>
-    (autoCommit { s with texts := s.texts ++ [txt], dirty := true }, .ok ())
+    (autoCommit { s with items := s.items ++ [fresh txt], dirty := true }, .ok ())
   | .pop k =>
-    match pyPop s.texts k with
+    match pyPop s.items k with
     | none => (s, .error .indexError)
-    | some l => (autoCommit { s with texts := l, dirty := true }, .ok ())
+    | some l => (autoCommit { s with items := l, dirty := true }, .ok ())
   | .listInsBefore emptyRx row txt =>
     if isBlank txt && s.cfg.ignoreBlank then (s, .error .invalidParameters)
     else if emptyRx then (s, .error .valueError)
-    else (autoCommit { s with texts := insertAtMatches false txt s.texts row, dirty := true }, .ok ())
+    else (autoCommit { s with items := insertAtMatches false (fresh txt) s.items row, dirty := true }, .ok ())
   | .listInsAfter emptyRx row txt =>
     if isBlank txt && s.cfg.ignoreBlank then (s, .error .invalidParameters)
     else if emptyRx then (s, .error .valueError)
-    else (autoCommit { s with texts := insertAtMatches true txt s.texts row, dirty := true }, .ok ())
-  | .objInsBefore i txt =>
-    if s.dirty || i ≥ s.texts.length then (s, .error .dirtyHandle)
-    else if isBlank txt && s.cfg.ignoreBlank then (s, .error .invalidParameters)
-    else (autoCommit { s with texts := s.texts.take i ++ txt :: s.texts.drop i, dirty := true }, .ok ())
-  | .objInsAfter i txt =>
-    if s.dirty || i ≥ s.texts.length then (s, .error .dirtyHandle)
-    else if isBlank txt && s.cfg.ignoreBlank then (s, .error .invalidParameters)
-    else (autoCommit { s with texts := s.texts.take (i + 1) ++ txt :: s.texts.drop (i + 1), dirty := true }, .ok ())
+    else (autoCommit { s with items := insertAtMatches true (fresh txt) s.items row, dirty := true }, .ok ())
+  | .objInsBefore h txt =>
+    match posOf s.items h with
+    | none => (s, .error .dirtyHandle)
+    | some p =>
+      if isBlank txt && s.cfg.ignoreBlank then (s, .error .invalidParameters)
+      else (autoCommit { s with items := s.items.take p ++ fresh txt :: s.items.drop p, dirty := true }, .ok ())
+  | .objInsAfter h txt =>
+    match posOf s.items h with
+    | none => (s, .error .dirtyHandle)
+    | some p =>
+      if isBlank txt && s.cfg.ignoreBlank then (s, .error .invalidParameters)
+      else (autoCommit { s with items := s.items.take (p + 1) ++ fresh txt :: s.items.drop (p + 1), dirty := true }, .ok ())
   | .delete i =>
-    if s.dirty || i ≥ s.texts.length then (s, .error .dirtyHandle)
-    else (autoCommit { s with texts := eraseAll s.texts (descendantsAndSelf s.tree i), dirty := true }, .ok ())
+    if s.dirty || i ≥ s.items.length then (s, .error .dirtyHandle)
+    else (autoCommit { s with items := eraseAll s.items (descendantsAndSelf s.tree i), dirty := true }, .ok ())
   | .appendToFamily i txt ind autoIndent =>
-    if s.dirty || i ≥ s.texts.length then (s, .error .dirtyHandle)
+    if s.dirty || i ≥ s.items.length then (s, .error .dirtyHandle)
     else if autoIndent && ind > 0 then (s, .error .notImplemented)
     else
       let txt' := familyText (indentOf s.tree i) s.width txt ind autoIndent
       match appendIndex s.tree s.width i txt' with
       | .error e => (s, .error e)
       | .ok idx =>
-        (autoCommit { s with texts := pyInsert s.texts idx txt', stale := true, dirty := true }, .ok ())
-  | .replaceText i before after =>
-    if s.dirty || i ≥ s.texts.length then (s, .error .dirtyHandle)
-    else
-      let new := pyReplace before after (s.texts.getD i [])
-      (autoCommit { s with texts := s.texts.set i new, dirty := true }, .ok ())
-  | .reSub i newText =>
-    if s.dirty || i ≥ s.texts.length then (s, .error .dirtyHandle)
-    else if s.stale then (s, .error .notImplemented)
-    else if newText = s.texts.getD i [] then (s, .ok ())
-    else (autoCommit { s with texts := s.texts.set i newText, dirty := true }, .ok ())
+        (autoCommit { s with items := pyInsert s.items idx (fresh txt'), stale := true, dirty := true }, .ok ())
+  | .replaceText h before after =>
+    match posOf s.items h with
+    | none => (s, .error .dirtyHandle)
+    | some p =>
+      let new := pyReplace before after ((s.texts).getD p [])
+      (autoCommit { s with items := setText s.items p new, dirty := true }, .ok ())
+  | .reSub h newText =>
+    match posOf s.items h with
+    | none => (s, .error .dirtyHandle)
+    | some p =>
+      if s.stale then (s, .error .notImplemented)
+      else if newText = (s.texts).getD p [] then (s, .ok ())
+      else (autoCommit { s with items := setText s.items p newText, dirty := true }, .ok ())
   | .commit => (commit s, .ok ())
   | .probe => (s, if s.stale then .error .notImplemented else .ok ())
 
